@@ -324,6 +324,56 @@ class Engine(Executor):
             return [(s, Z(V.seg_type(s.store[v.ref].ident, V.to_int(idx.t))))]
         raise Unsupported("seg_type of a non-symbolic path", node)
 
+    def _same_sv(self, a, b, s, node):
+        if isinstance(a, Z) and isinstance(b, Z):
+            return a.t == b.t
+        if isinstance(a, RefV) and isinstance(b, RefV):
+            return T(a.ref == b.ref)
+        if isinstance(a, PyTuple) and isinstance(b, PyTuple) and len(a.items) == len(b.items):
+            return z3.And([self._same_sv(x, y, s, node) for x, y in zip(a.items, b.items)] or [T(True)])
+        if isinstance(a, Z) and isinstance(b, RefV) or isinstance(a, RefV) and isinstance(b, Z):
+            return self.identical(a, b, s, node)
+        return T(False)
+
+    def bi_extended_by(self, args, kwargs, s, node):
+        """extended_by(new, old, *items): `new` was built as `old + [items...]` (a fresh list; `old` untouched)."""
+        new, old = args[0], args[1]
+        items = list(args[2:])
+        if not (isinstance(new, RefV) and isinstance(s.store[new.ref], AbsBox) and hasattr(s.store[new.ref], "prov")):
+            return [(s, Z(V.mk(False), "bool"))]
+        base, appended = s.store[new.ref].prov
+        if len(appended) != len(items):
+            return [(s, Z(V.mk(False), "bool"))]
+        if isinstance(base, int):
+            same_base = T(isinstance(old, RefV) and old.ref == base)
+        else:
+            same_base = self._same_sv(base, old, s, node)
+        conds = [same_base] + [self._same_sv(x, y, s, node) for x, y in zip(appended, items)]
+        return [(s, Z(V.VBool(z3.And(conds)), "bool"))]
+
+    def bi_call_event(self, args, kwargs, s, node):
+        """call_event(name): the arguments recorded by the last contracted call whose event is tagged `name`."""
+        name = self.concrete_str(args[0])
+        for ev in reversed(s.ghost.get("events", [])):
+            if isinstance(ev, PyTuple) and ev.items and self.concrete_str(ev.items[0]) == name:
+                return [(s, ev)]
+        return [(s, PyTuple([Z(V.mk(name), "str")]))]
+
+    def bi_called(self, args, kwargs, s, node):
+        name = self.concrete_str(args[0])
+        n = sum(1 for ev in s.ghost.get("events", []) if isinstance(ev, PyTuple) and ev.items and self.concrete_str(ev.items[0]) == name)
+        return [(s, Z(V.mk(n), "int"))]
+
+    def bi_path_is(self, args, kwargs, s, node):
+        """path_is(p, base, segment): p is the result of the (non-mutating) `base + segment`."""
+        p, base, seg = args
+        alts = []
+        for ev in s.ghost.get("events", []) + list(s.ghost.get("all_events", [])):
+            if isinstance(ev, PyTuple) and len(ev.items) == 4 and self.concrete_str(ev.items[0]) == "add":
+                alts.append(z3.And(self._same_sv(ev.items[3], p, s, node), self._same_sv(ev.items[1], base, s, node),
+                                   self._same_sv(ev.items[2], seg, s, node)))
+        return [(s, Z(V.VBool(z3.Or(alts) if alts else T(False)), "bool"))]
+
     def bi_is_exact(self, args, kwargs, s, node):
         return [(s, Z(V.VBool(V.exact(args[0].t)), "bool"))]
 
@@ -738,23 +788,6 @@ class Engine(Executor):
                 self.prove(s2, b, "K5", node, "call-pre of %s: %s" % (fi.name, r), clause=r)
         if pre_only:
             return []
-        if c.opts.get("event"):
-            saved_env, saved_fi = s.env, self.cur_fi
-            self.cur_fi = self.contract_fi
-            self.pure += 1
-            self.in_spec += 1
-            try:
-                s.env = dict(env)
-                r = self.ev(ast.parse(c.opts["event"], mode="eval").body, s)
-            finally:
-                self.pure -= 1
-                self.in_spec -= 1
-                self.cur_fi = saved_fi
-                s.env = saved_env
-            if len(r) != 1 or is_exc(r[0][1]):
-                raise Unsupported("event expression of %s" % c.name, node)
-            s.ghost = dict(s.ghost)
-            s.ghost["events"] = list(s.ghost.get("events", [])) + [r[0][1]]
         # result
         ret_ann = c.opts.get("returns")
         if c.opts.get("len_fn") and ret_ann:
@@ -790,6 +823,12 @@ class Engine(Executor):
         out = []
         states = [s]
         env2 = dict(env)
+        if kwbag is not None:
+            for pname in c.params:
+                if pname.startswith("kw_"):
+                    env2[pname] = kwbag.get(pname[3:], Z(V.VNone))     # keyword not passed: the callee sees its default
+            for k_, v_ in kwbag.items():
+                env2["kw_" + k_] = v_
         # the callee's ghost names are evaluated in the pre-state of the call
         for gname, gexpr in c.ghost.items():
             saved_env, saved_fi = s.env, self.cur_fi
@@ -842,6 +881,24 @@ class Engine(Executor):
                         pass
                     st.flags = dict(st.flags)
                     st.flags["elem_facts"] = tuple(st.flags.get("elem_facts", ())) + ((V.get_rid(target.t), ef["fact"], e3),)
+        if c.opts.get("event"):
+            for st in states:
+                saved_env, saved_fi = st.env, self.cur_fi
+                self.cur_fi = self.contract_fi
+                self.pure += 1
+                self.in_spec += 1
+                try:
+                    st.env = dict(env2)
+                    r = self.ev(ast.parse(c.opts["event"], mode="eval").body, st)
+                finally:
+                    self.pure -= 1
+                    self.in_spec -= 1
+                    self.cur_fi = saved_fi
+                    st.env = saved_env
+                if len(r) != 1 or is_exc(r[0][1]):
+                    raise Unsupported("event expression of %s" % c.name, node)
+                st.ghost = dict(st.ghost)
+                st.ghost["events"] = list(st.ghost.get("events", [])) + [r[0][1]]
         for st in states:
             out.append((st, res))
         for cls in c.raises:
@@ -1337,6 +1394,7 @@ class Engine(Executor):
                 if p.startswith("kw_"):
                     kw[p[3:]] = self.fresh_of_annotation(ann, "in_" + p, st, fi.node)
             env[a.kwarg.arg] = ("kwargs", kw)
+            st.flags["entry_kwargs"] = dict(kw)
         if fi.parent is not None:
             # nested function: free variables of the enclosing function are extra parameters
             for p, ann in c.params.items():
@@ -1402,6 +1460,9 @@ class Engine(Executor):
                 env2 = dict(entry)
                 env2["result"] = res
                 env2["events"] = PyTuple(list(s.ghost.get("events", [])))
+                if a.kwarg is not None and isinstance(entry.get(a.kwarg.arg), tuple):
+                    for k_, v_ in s.flags.get("entry_kwargs", {}).items():
+                        env2["kw_" + k_] = v_
                 if fi.is_generator:
                     env2["out"] = PyTuple([v for (v, _ln) in s.out if not isinstance(v, str)]) if not any(v == "havoc" for (v, _l) in s.out) else None
                 if c.opts.get("returns") and isinstance(res, Z):
@@ -1409,6 +1470,8 @@ class Engine(Executor):
                     if cst is not None:
                         self.prove(s, cst, "K2", fi.node, "result is %s" % c.opts["returns"], clause="returns:" + c.opts["returns"])
                 for en in c.ensures:
+                    if fi.is_generator and env2.get("out") is None and "out" in en:
+                        continue          # the yields of this path were abstracted by a loop: per-iteration clauses apply instead
                     try:
                         for (s2, b) in self.eval_clause(en, s.fork(), env2, fi.node):
                             ob = self.prove(s2, b, "K2", self.ret_node(oc, fi), "post-condition: %s" % en, clause=en)
@@ -1474,7 +1537,7 @@ def _bi_same(self, args, kwargs, s, node):
     a, b = args
     if isinstance(a, Z) and isinstance(b, Z):
         return [(s, Z(V.VBool(a.t == b.t), "bool"))]
-    return [(s, Z(V.VBool(self.identical(a, b, s, node)), "bool"))]
+    return [(s, Z(V.VBool(self._same_sv(a, b, s, node)), "bool"))]
 
 
 Engine.bi_same = _bi_same
